@@ -204,6 +204,21 @@ def check(ctx):
                        or (e['kind'] == 'streamop' and e['name'] == 'open')]
                 bad = [e for e in ops if (e.get('path') if e['kind'] == 'open' else (e.get('args') or [None])[0]) in [final] + names
                        or fld(s.this, 'filename_') == (e.get('path') if e['kind'] == 'open' else (e.get('args') or [None])[0])]
+                # ... nor rename / remove anything onto it: the only rename that may replace the checkpoint is the one of
+                # the protocol, straight after a temporary file was written completely and closed
+                fsops = [e for e, l in flat_effects(s.effects) if e['kind'] in ('fs', 'ext') and
+                         (e.get('name') or '').split('::')[-1] in ('rename', 'remove', 'unlink', 'truncate')]
+                hits = [e for e in fsops if any(a_ == final or a_ in names or
+                                                (isinstance(a_, tuple) and a_ and a_[0] == 'strop' and final in a_)
+                                                for a_ in (e.get('args') or []))]
+                if hits and not bad:
+                    ctx.violation('R3.no_other_writer', '%s:callback::%s' % (hits[0]['where'], m.name), 'the checkpoint '
+                                  'file is replaced or removed in %s, outside the write protocol: a leftover temporary '
+                                  'file of a killed run (possibly truncated) takes the place of the complete checkpoint'
+                                  % m.name, {'crash_point': 'kill while the temporary file is being written, then '
+                                                            'construct the callback of the resumed run',
+                                             'operation': hits[0].get('name')})
+                    return
                 if bad:
                     ctx.violation('R3.no_other_writer', '%s:callback::%s' % (bad[0]['where'], m.name), 'the checkpoint file '
                                   'itself is opened for writing in %s: an existing checkpoint is truncated before the '
